@@ -1,6 +1,7 @@
 import A816.Proofs.ExprMain
 import A816.Proofs.ExprClassify
 import A816.Gen.Tables
+import A816.Proofs.ExprSpaces
 /-!
 # C06 — Expressions evaluate to their conventional integer value
 
@@ -110,5 +111,26 @@ example : Classify.Matches st0 st0.pos (printNodes e0) := by
   match i, hi' with
   | 0, _ | 1, _ | 2, _ | 3, _ | 4, _ | 5, _ | 6, _ | 7, _ => decide +kernel +revert
 example : (st0.toks.getD (st0.pos + (printNodes e0).length) eofTok).ty ≠ .OPERATOR := by decide +kernel
+
+/-! ## spacing -/
+open ScanS in
+/-- **blanks between the tokens of an expression do not change what is scanned** (C06 "spacing does not change the result",
+    at the level of the expression scanner `lex_expression`, which `eval_expression_str` and every operand use): from two
+    between-token points (`start = pos`) whose remaining texts are equal once their leading blanks are dropped, the rest of
+    `lex_expression` emits tokens of the same types and texts and ends alike.  With `C06_value` (the value is a function
+    of the token types and texts) equal remaining tokens give equal values. -/
+theorem spacing_between_tokens (s1 s2 : Scan) (b1 : s1.start = s1.pos) (b2 : s2.start = s2.pos)
+    (l1 : s1.pos ≤ s1.input.size) (l2 : s2.pos ≤ s2.input.size)
+    (hrest : (s1.input.toList.drop s1.pos).dropWhile (fun c => [' '].contains c) =
+      (s2.input.toList.drop s2.pos).dropWhile (fun c => [' '].contains c)) :
+    ∃ A B, RelR A B s1.toks.size s2.toks.size (lexExpression s1) (lexExpression s2) :=
+  expr_spaces s1 s2 b1 b2 l1 l2 hrest
+
+/-- non-vacuity, and the conclusion observed (a test): "   1+2" and "1+2" from their first character -/
+example : (("   1+2".toList.drop 0).dropWhile fun c => [' '].contains c) = (("1+2".toList.drop 0).dropWhile fun c => [' '].contains c) := by
+  decide
+example : (scan ⟨[], [], []⟩ .expression 0 "   1 +  2".toList).toks.toList.map ScanS.key
+    = (scan ⟨[], [], []⟩ .expression 0 "1+2".toList).toks.toList.map ScanS.key := by decide +kernel
+
 
 end A816.C06
